@@ -326,6 +326,32 @@ def lower_depth_resume(ctx, crate):
     ctx.report(clause, "to_lower_depth:second-scan-resumes-at-i+1", ok, why, at=b.span, kind="N")
 
 
+def buffer_merge(ctx, crate):
+    """N: `buff_to_bmoc` replaces a run of 4^dd consecutive cells starting on h by the one cell
+    (depth - dd, h >> 2 dd, flag, depth): the four arguments of the value written are tied to one and
+    the same dd, the hash read at the start of the run, the builder's own flag and depth."""
+    clause = "fixed-depth-builder"
+    fn = FD + "buff_to_bmoc"
+    b = ctx.anchor(crate, fn, clause)
+    if b is None: return
+    brv = {p_ for p_ in crate.bodies if p_.endswith("::build_raw_value")}
+    e = Engine(crate, opaque=brv | {FD + "largest_lower_cell_sequence_len", M + "BMOC::create_unsafe_copying"}); e.run(fn); ctx.functions |= e.visited_fns
+    evs = [ev for ev in e.events.values() if ev.callee in brv and len(ev.site) == 2]
+    seq = [ev for ev in e.events.values() if ev.callee == FD + "largest_lower_cell_sequence_len"]
+    ok = False; why = "expected one value written per run (%d) and one run-length query (%d)" % (len(evs), len(seq))
+    if len(evs) == 1 and len(seq) == 1:
+        d, h, fl, dm = evs[0].args
+        S = ('deref', ('p', 'self'))
+        fd = lambda name: ('fld', S, crate.field_index("nested::bmoc::BMOCBuilderFixedDepth", name))
+        H = seq[0].args[1]
+        okd = d[0] == 'op' and d[1] == 'sub' and d[3] == fd("depth")
+        DD = d[4] if okd else None
+        okh = okd and h == ('op', 'shr', 'u64', H, ('op', 'shl', 'u8', DD, C('i32', 1)))
+        ok = okd and okh and fl == fd("is_full") and dm == fd("depth")
+        why = "writes build_raw_value(depth - dd, h >> 2 dd, is_full, depth) with h the first hash of the run" if ok else "the merged value is build_raw_value(%s, %s, %s, %s)" % tuple(show(a)[:50] for a in evs[0].args)
+    ctx.report(clause, "buff_to_bmoc:merged-cell", ok, why, at=b.span, kind="N")
+
+
 def run(ctx):
     crate = ctx.crate("rel")
     if ctx.tier == "thorough":
@@ -336,6 +362,7 @@ def run(ctx):
     ctx.floor("reencoding-obligations", n, len(triples))
     ctx.extra["triples"] = len(triples)
     fixed_depth_builder(ctx, crate)
+    buffer_merge(ctx, crate)
     push_invariant(ctx, crate)
     merge_level_cap(ctx, crate)
     pack_rule(ctx, crate)
